@@ -145,7 +145,8 @@ class C03(Check):
                     num("z") == term(ctx["z"]), num("C") == 1, num("c") == term(ctx["rw"]), num("r") == (1 if lines else rh),
                 ),
             )
-            eng.claim(f"kitty[{i}]: o=z present iff compression is on", z3.If(level != 0, z3.BoolVal(st("o") == "z"), z3.BoolVal("o" not in k)))
+            has_o = "o" in k
+            eng.claim(f"kitty[{i}]: the o key, when present, is 'z'", (not has_o) or st("o") == "z")
             # chunk payloads tile one base64 object
             L = W * v_exp * bpp
             if eng.concrete is not None:
@@ -170,12 +171,13 @@ class C03(Check):
             if inner is None:
                 eng.claim(f"kitty[{i}]: payload encodes exactly one object", False)
                 continue
-            if inner.meta.get("kind") == "zlib":
-                eng.claim(f"kitty[{i}]: compressed exactly when the level is non-zero, with that level, whole output sent",
+            is_z = inner.meta.get("kind") == "zlib"
+            eng.claim(f"kitty[{i}]: payload is zlib-compressed iff the command says o=z", is_z == has_o)
+            if is_z:
+                eng.claim(f"kitty[{i}]: compression only with a non-zero level, at that level, whole compressed output sent",
                           z3.And(level != 0, complete, term(inner.meta["level"]) == level))
                 raw_list = inner.meta["src"]
             else:
-                eng.claim(f"kitty[{i}]: uncompressed exactly when the level is zero", level == 0)
                 raw_list = src
             raws = [a for a in raw_list if isinstance(a, Opq)]
             ok_raw = len(raws) >= 1 and len(raw_list) == len(raws) and raws[0].meta.get("kind") == "raw" and raws[0].meta["img"] is ctx["renders"][0]["img"]
